@@ -718,3 +718,25 @@ Proof.
 Qed.
 
 End MatcherProofs.
+
+Section RemoveSubset.
+Context {M : MatchOps} {L : MatchLaws M}.
+
+Lemma groups_remove_in : forall gs d p x, In x (flat_map snd (groups_remove gs d p)) -> In x (flat_map snd gs).
+Proof.
+  induction gs as [|[k es] gs IH]; intros d p x H; cbn [groups_remove flat_map snd] in *; auto.
+  destruct (Nat.eqb k d).
+  - destruct (entries_remove es p) as [|y ys] eqn:Er.
+    + apply in_or_app. now right.
+    + cbn [flat_map snd] in H. apply in_app_or in H as [H|H]; apply in_or_app; [left|now right].
+      apply (entries_remove_in es p). now rewrite Er.
+  - cbn [flat_map snd] in H. apply in_app_or in H as [H|H]; apply in_or_app; [now left|right; eauto].
+Qed.
+
+Lemma all_entries_remove : forall m p m' x, m_remove m p = Some m' -> In x (all_entries m') -> In x (all_entries m).
+Proof.
+  intros m p m' x H Hx. unfold m_remove in H. destruct (m_get m p); [|discriminate]. inversion H; subst.
+  unfold all_entries in *. cbn [m_groups] in Hx. now apply groups_remove_in in Hx.
+Qed.
+
+End RemoveSubset.
